@@ -34,6 +34,8 @@ import (
 	"github.com/vimeo/dials/sources/file"
 	"github.com/vimeo/dials/sources/flag"
 	"github.com/vimeo/dials/sourcewrap"
+	"github.com/vimeo/dials/tagformat"
+	"github.com/vimeo/dials/tagformat/caseconversion"
 	"github.com/vimeo/dials/transform"
 
 	"verifharness/internal/coqfmt"
@@ -149,7 +151,7 @@ func render(format string, lv leafVals) string {
 	q := func(s string) string { b, _ := json.Marshal(s); return string(b) }
 	var kv [][2]string // top-level key -> rendered value
 	if lv.Valid != nil {
-		kv = append(kv, [2]string{"valid", fmt.Sprint(*lv.Valid)})
+		kv = append(kv, [2]string{validKey, fmt.Sprint(*lv.Valid)})
 	}
 	if lv.A != nil {
 		kv = append(kv, [2]string{"a", fmt.Sprint(*lv.A)})
@@ -167,7 +169,7 @@ func render(format string, lv leafVals) string {
 		kv = append(kv, [2]string{"key", q(*lv.Key)})
 	}
 	if lv.KeyF != nil {
-		kv = append(kv, [2]string{"key_file", q(*lv.KeyF)})
+		kv = append(kv, [2]string{keyFileKey, q(*lv.KeyF)})
 	}
 	var lst string
 	if lv.L != nil {
@@ -343,23 +345,78 @@ func defaultsOf(lv leafVals) *EzCfg {
 	return c
 }
 
-// the decoder exactly as ez wraps it (ez.go:218-243 with default params); chosen by the harness's own
-// knowledge of the format, NOT through ez.DecoderFromExtension (which is code under test)
-func ezDecoder(path string) dials.Decoder {
-	var d dials.Decoder
-	switch strings.ToLower(filepath.Ext(path)) {
-	case ".json":
-		d = &jsondec.Decoder{}
-	case ".yaml", ".yml":
-		d = &yamldec.Decoder{}
-	case ".toml":
-		d = &tomldec.Decoder{}
-	case ".cue":
-		d = &cuedec.Decoder{}
-	default:
-		return nil
+// per-case variation of the ez call: which entry point, which Params
+type ezVariation struct {
+	entry      int  // 0 ConfigFileEnvFlag+DecoderFromExtension, 1 FileExtensionDecoderConfigEnvFlag, 2 ...DecoderFactoryParams+DecoderFromExtensionWithParams, 3 the format's own entry point, 4 ConfigFileEnvFlag + own factory
+	kebab      bool // FileFieldNameEncoder = kebab-case, DialsTagNameDecoder = lower_snake_case
+	disableSet bool
+	flatAnon   bool
+}
+
+func (v ezVariation) extBased() bool { return v.entry <= 2 }
+
+func rawDecoder(format string, flatAnon bool) dials.Decoder {
+	switch format {
+	case "json":
+		return &jsondec.Decoder{}
+	case "yaml":
+		return &yamldec.Decoder{FlattenAnonymous: flatAnon}
+	case "toml":
+		return &tomldec.Decoder{}
+	case "cue":
+		return &cuedec.Decoder{}
 	}
-	return sourcewrap.NewTransformingDecoder(d, transform.NewAliasMangler(common.DialsTagName), &transform.SetSliceMangler{})
+	return nil
+}
+
+// the decoder exactly as ez wraps it (ez.go:218-243); the format is chosen by the harness's own
+// knowledge (for the extension-driven entry points: its own extension table), NOT through
+// ez.DecoderFromExtension, which is code under test
+func ezDecoder(path, format string, v ezVariation) dials.Decoder {
+	if v.extBased() {
+		switch strings.ToLower(filepath.Ext(path)) {
+		case ".json":
+			format = "json"
+		case ".yaml", ".yml":
+			format = "yaml"
+		case ".toml":
+			format = "toml"
+		case ".cue":
+			format = "cue"
+		default:
+			return nil
+		}
+	}
+	ms := []transform.Mangler{transform.NewAliasMangler(common.DialsTagName)}
+	if v.kebab {
+		ms = append(ms, tagformat.NewTagReformattingMangler(common.DialsTagName, ownTagDecoder, caseconversion.EncodeKebabCase))
+	}
+	if !v.disableSet {
+		ms = append(ms, &transform.SetSliceMangler{})
+	}
+	return sourcewrap.NewTransformingDecoder(rawDecoder(format, v.flatAnon), ms...)
+}
+
+// keys of EzCfg.KeyFile and EzCfg.Valid in the file of the current case ("key-file", "va-lid" under the
+// kebab encoder with the caller's own tag decoder); cases run serially
+var keyFileKey, validKey = "key_file", "valid"
+
+// the caller's own naming scheme for dials tags (Params.DialsTagNameDecoder "exists to allow for other
+// naming schemes"): lower_snake_case in which the word "valid" reads as the two words "va", "lid"
+func ownTagDecoder(s string) (caseconversion.DecodedIdentifier, error) {
+	w, err := caseconversion.DecodeLowerSnakeCase(s)
+	if err != nil {
+		return nil, err
+	}
+	var out caseconversion.DecodedIdentifier
+	for _, x := range w {
+		if x == "valid" {
+			out = append(out, "va", "lid")
+		} else {
+			out = append(out, x)
+		}
+	}
+	return out, nil
 }
 
 func outcomeTerm(v reflect.Value, err error) string {
@@ -384,6 +441,11 @@ func run(raw json.RawMessage) driver.Result {
 	defer os.RemoveAll(dir)
 	format := coqfmt.Pick(r, []string{"json", "yaml", "toml", "cue"})
 	watch := r.Chance(1, 2)
+	vr := ezVariation{entry: r.Intn(5), kebab: r.Chance(1, 4), disableSet: r.Chance(1, 3), flatAnon: r.Chance(1, 3)}
+	keyFileKey, validKey = "key_file", "valid"
+	if vr.kebab {
+		keyFileKey, validKey = "key-file", "va-lid"
+	}
 	ext := format
 	if format == "yaml" && r.Chance(1, 2) {
 		ext = "yml"
@@ -393,6 +455,17 @@ func run(raw json.RawMessage) driver.Result {
 		ext = strings.ToUpper(ext)
 	case 1:
 		ext = strings.ToUpper(ext[:1]) + ext[1:]
+	}
+	unknownExt := false
+	if vr.extBased() {
+		if r.Chance(1, 25) {
+			ext = coqfmt.Pick(r, []string{"conf", "jsonx", "ya", "txt"})
+			unknownExt = true // no decoder for it: the entry point must fail when a file is named
+		}
+	} else if r.Chance(1, 2) {
+		// the format is fixed by the entry point / the caller's factory: the file's name is irrelevant,
+		// even when it carries ANOTHER format's extension
+		ext = coqfmt.Pick(r, []string{"conf", "json", "yaml", "toml", "cue", "txt"})
 	}
 	pathA := filepath.Join(dir, "a."+ext)
 	pathB := filepath.Join(dir, "b."+ext)
@@ -535,7 +608,10 @@ func run(raw json.RawMessage) driver.Result {
 		panic(fmt.Errorf("harness input rejected by env/flag source: %v %v", envErr, flagErr))
 	}
 	fileLayer := func(p string) string {
-		dec := ezDecoder(p)
+		dec := ezDecoder(p, format, vr)
+		if dec == nil {
+			return "(Err 0)"
+		}
 		src, err := file.NewSource(p, dec)
 		if err != nil {
 			return "(Err 0)"
@@ -557,8 +633,10 @@ func run(raw json.RawMessage) driver.Result {
 	newCfgCalls, errCalls := 0, 0
 	var newCfgArgs []string
 	params := ez.Params[EzCfg]{
-		WatchConfigFile: watch,
-		FlagSource:      mkFlags(),
+		WatchConfigFile:        watch,
+		FlagSource:             mkFlags(),
+		DisableAutoSetToSlice:  vr.disableSet,
+		FlattenAnonymousFields: vr.flatAnon,
 		OnNewConfig: func(ctx context.Context, o, n *EzCfg) {
 			cbMu.Lock()
 			newCfgCalls++
@@ -587,7 +665,33 @@ func run(raw json.RawMessage) driver.Result {
 				ch <- res{nil, fmt.Errorf("PANIC: %v", p)}
 			}
 		}()
-		d, err := ez.ConfigFileEnvFlag(ctx, &cfgIn, ez.DecoderFromExtension, params)
+		if vr.kebab {
+			params.DialsTagNameDecoder = ownTagDecoder
+			params.FileFieldNameEncoder = caseconversion.EncodeKebabCase
+		}
+		var d *dials.Dials[EzCfg]
+		var err error
+		switch vr.entry {
+		case 0:
+			d, err = ez.ConfigFileEnvFlag(ctx, &cfgIn, ez.DecoderFromExtension, params)
+		case 1:
+			d, err = ez.FileExtensionDecoderConfigEnvFlag(ctx, &cfgIn, params)
+		case 2:
+			d, err = ez.ConfigFileEnvFlagDecoderFactoryParams(ctx, &cfgIn, ez.DecoderFromExtensionWithParams[EzCfg], params)
+		case 3:
+			switch format {
+			case "json":
+				d, err = ez.JSONConfigEnvFlag(ctx, &cfgIn, params)
+			case "yaml":
+				d, err = ez.YAMLConfigEnvFlag(ctx, &cfgIn, params)
+			case "toml":
+				d, err = ez.TOMLConfigEnvFlag(ctx, &cfgIn, params)
+			default:
+				d, err = ez.CueConfigEnvFlag(ctx, &cfgIn, params)
+			}
+		default:
+			d, err = ez.ConfigFileEnvFlag(ctx, &cfgIn, func(string) dials.Decoder { return rawDecoder(format, vr.flatAnon) }, params)
+		}
 		ch <- res{d, err}
 	}()
 	var out res
@@ -649,6 +753,10 @@ func run(raw json.RawMessage) driver.Result {
 		case kind == "file-missing" || kind == "file-malformed":
 			if implOK {
 				direct = append(direct, "a missing or malformed config file must be the entry point's error")
+			}
+		case unknownExt && kind != "no-path":
+			if implOK {
+				direct = append(direct, "a config file whose extension names no decoder must be the entry point's error")
 			}
 		case exp.Valid && !implOK:
 			direct = append(direct, fmt.Sprintf("the fully stacked config is valid and the file is well-formed, but the entry point failed: %v", out.err))
@@ -742,7 +850,14 @@ func run(raw json.RawMessage) driver.Result {
 		rty.FieldsTerm(T), defTerm, rty.ValTerm(envV), rty.ValTerm(flagV), pathIdx, validIdx, coqfmt.Bool(watch),
 		coqfmt.List(files),
 		coqfmt.Bool(implOK), viewTerm, coqfmt.List(vlog1), coqfmt.Bool(eventsEmpty), n1, e1, updTerm)
-	tags = append(tags, "format-"+format, fmt.Sprintf("watch-%v", watch), fmt.Sprintf("impl-ok-%v", implOK))
+	tags = append(tags, "format-"+format, fmt.Sprintf("watch-%v", watch), fmt.Sprintf("impl-ok-%v", implOK),
+		"entry-"+[]string{"ConfigFileEnvFlag+DecoderFromExtension", "FileExtensionDecoderConfigEnvFlag", "DecoderFactoryParams+DecoderFromExtensionWithParams", "format-specific", "ConfigFileEnvFlag+own-factory"}[vr.entry])
+	if vr.kebab {
+		tags = append(tags, "kebab-file-keys")
+	}
+	if unknownExt {
+		tags = append(tags, "unknown-extension")
+	}
 	if updTerm != "None" {
 		tags = append(tags, "with-file-update")
 	}
